@@ -129,7 +129,7 @@ add("C08", "fault_enumeration",
     "exhaustive fault-point enumeration (crash points = every byte offset; fault alphabet per labelled word) on the implementation with a fault-injecting stream",
     "DESIGN.md 2/C08", "E6+E7")
 add("C15", "exploration",
-    "Bounded-exhaustive programs instead of random ones: the C12 history space (construction, writes, copies, assignments, conversions, IO, destruction, with every cell looked up after every operation) and lookups at every in-domain coordinate of the stack adjacency cover, "
+    "Bounded-exhaustive programs instead of random ones: the C12 history space (construction, writes, copies, assignments, conversions, IO, destruction, with every cell looked up after every operation) lookups at every in-domain coordinate of the stack adjacency cover, and binary IO between field types (dump + load of every array-backed catalogue stack to depth 3 in five configuration variants, every writer -> reader pair differing in interpolator / float width; sanitizer builds), "
     "each built {-O0/-O1 assert, -O2 NDEBUG} x {ASan+UBSan incl. float-cast-overflow, valgrind memcheck}; any sanitizer / memcheck report or assertion is a violation and the digests of all observed values must agree across the four configurations.",
     "programs bounded as in C12 / C02 quick covers; malformed input excluded (C08)",
     "bounded-exhaustive enumeration of operation histories and stack lookups under sanitizer / memcheck oracles in four build configurations",
